@@ -2868,80 +2868,83 @@ where
         }
     }
 
+    // The three footnote passes walk the tree with an explicit stack (children
+    // pushed in reverse, so nodes are visited in document order): the tree can
+    // be nested far deeper than the call stack allows.
     fn find_footnote_definitions(
-        node: &'a AstNode<'a>,
+        root: &'a AstNode<'a>,
         map: &mut HashMap<String, FootnoteDefinition<'a>>,
     ) {
-        match node.data.borrow().value {
-            NodeValue::FootnoteDefinition(ref nfd) => {
-                map.insert(
-                    strings::normalize_label(&nfd.name, Case::Fold),
-                    FootnoteDefinition {
-                        ix: None,
-                        node,
-                        name: strings::normalize_label(&nfd.name, Case::Preserve),
-                        total_references: 0,
-                    },
-                );
-            }
-            _ => {
-                for n in node.children() {
-                    Self::find_footnote_definitions(n, map);
+        let mut stack = vec![root];
+        while let Some(node) = stack.pop() {
+            match node.data.borrow().value {
+                NodeValue::FootnoteDefinition(ref nfd) => {
+                    map.insert(
+                        strings::normalize_label(&nfd.name, Case::Fold),
+                        FootnoteDefinition {
+                            ix: None,
+                            node,
+                            name: strings::normalize_label(&nfd.name, Case::Preserve),
+                            total_references: 0,
+                        },
+                    );
                 }
+                _ => stack.extend(node.reverse_children()),
             }
         }
     }
 
     fn find_footnote_references(
-        node: &'a AstNode<'a>,
+        root: &'a AstNode<'a>,
         map: &mut HashMap<String, FootnoteDefinition>,
         ixp: &mut u32,
     ) {
-        let mut ast = node.data.borrow_mut();
-        let mut replace = None;
-        match ast.value {
-            NodeValue::FootnoteReference(ref mut nfr) => {
-                let normalized = strings::normalize_label(&nfr.name, Case::Fold);
-                if let Some(ref mut footnote) = map.get_mut(&normalized) {
-                    let ix = match footnote.ix {
-                        Some(ix) => ix,
-                        None => {
-                            *ixp += 1;
-                            footnote.ix = Some(*ixp);
-                            *ixp
-                        }
-                    };
-                    footnote.total_references += 1;
-                    nfr.ref_num = footnote.total_references;
-                    nfr.ix = ix;
-                    nfr.name = footnote.name.clone();
-                } else {
-                    replace = Some(nfr.name.clone());
+        let mut stack = vec![root];
+        while let Some(node) = stack.pop() {
+            let mut ast = node.data.borrow_mut();
+            let mut replace = None;
+            match ast.value {
+                NodeValue::FootnoteReference(ref mut nfr) => {
+                    let normalized = strings::normalize_label(&nfr.name, Case::Fold);
+                    if let Some(ref mut footnote) = map.get_mut(&normalized) {
+                        let ix = match footnote.ix {
+                            Some(ix) => ix,
+                            None => {
+                                *ixp += 1;
+                                footnote.ix = Some(*ixp);
+                                *ixp
+                            }
+                        };
+                        footnote.total_references += 1;
+                        nfr.ref_num = footnote.total_references;
+                        nfr.ix = ix;
+                        nfr.name = footnote.name.clone();
+                    } else {
+                        replace = Some(nfr.name.clone());
+                    }
                 }
+                _ => stack.extend(node.reverse_children()),
             }
-            _ => {
-                for n in node.children() {
-                    Self::find_footnote_references(n, map, ixp);
-                }
-            }
-        }
 
-        if let Some(mut label) = replace {
-            label.insert_str(0, "[^");
-            label.push(']');
-            ast.value = NodeValue::Text(label);
+            if let Some(mut label) = replace {
+                label.insert_str(0, "[^");
+                label.push(']');
+                ast.value = NodeValue::Text(label);
+            }
         }
     }
 
-    fn cleanup_footnote_definitions(node: &'a AstNode<'a>) {
-        match node.data.borrow().value {
-            NodeValue::FootnoteDefinition(_) => {
+    fn cleanup_footnote_definitions(root: &'a AstNode<'a>) {
+        let mut stack = vec![root];
+        while let Some(node) = stack.pop() {
+            let is_definition = matches!(
+                node.data.borrow().value,
+                NodeValue::FootnoteDefinition(_)
+            );
+            if is_definition {
                 node.detach();
-            }
-            _ => {
-                for n in node.children() {
-                    Self::cleanup_footnote_definitions(n);
-                }
+            } else {
+                stack.extend(node.reverse_children());
             }
         }
     }
